@@ -30,7 +30,7 @@ PRELUDE = ("From Coq Require Import ZArith List Bool.\nFrom Darr Require Import 
 KEYS = ['a', 'k2', 'ü中']
 
 VALUES = [
-    ['int', 5], ['int', -2 ** 70], ['float', 2.5], ['float', -0.0], ['nan'], ['inf', 1], ['inf', -1],
+    ['int', 5], ['int', 0], ['str', ''], ['int', -2 ** 70], ['float', 2.5], ['float', -0.0], ['nan'], ['inf', 1], ['inf', -1],
     ['str', 'plain'], ['str', 'zü中\U0001f600'], ['str', 'tab\tnl\n\x01"\\'], ['bool', 1], ['bool', 0],
     ['none'], ['list', [['int', 1], ['str', 'x'], ['list', [['none']]]]],
     ['dict', [['p', ['int', 1]], ['q', ['list', [['float', 1.5]]]]]], ['tuple', [['int', 1], ['int', 2]]],
